@@ -230,6 +230,8 @@ def jobs(tier):
             for sv in ID_VARIANTS:
                 if tier == 'quick' and form != 'dense-array' and ov != 'ok' and sv != 'ok':
                     continue
+                if form == 'triples' and (ov.startswith('too') or sv.startswith('too')):
+                    continue        # coordinate triples take their shape from the ID lists: a different ID count is a different table
                 out.append(('malformed', (2, 2, form, ov, sv)))
     return out
 
